@@ -309,15 +309,16 @@ where
 #[packrat_parser]
 pub(crate) fn white_space(s: Span) -> IResult<Span, WhiteSpace> {
     if in_directive() {
-        map(multispace1, |x: Span| {
+        map(is_a(" \t\r\n\x0c"), |x: Span| {
             WhiteSpace::Space(Box::new(into_locate(x)))
         })(s)
     } else {
         alt((
-            map(space1, |x: Span| {
+            // IEEE 1800-2017 5.3: white space is spaces, tabs, newlines and formfeeds
+            map(is_a(" \t\x0c"), |x: Span| {
                 WhiteSpace::Space(Box::new(into_locate(x)))
             }),
-            map(multispace1, |x: Span| {
+            map(is_a(" \t\r\n\x0c"), |x: Span| {
                 WhiteSpace::Newline(Box::new(into_locate(x)))
             }),
             map(preceded(peek(char('/')), comment), |x| {
